@@ -48,7 +48,10 @@ theorem C02_only_at_commit (st : PState) (d : Decoded) (tx : Transaction) (acc :
         · split at h
           · rename_i hc; exact Or.inl hc
           · cases h
-  | tableMap id tc known => cases known <;> simp [stepD] at h
+  | tableMap id tc known =>
+    cases known
+    · by_cases hc : (findTable st.tables id).isSome = true <;> simp [stepD, hc] at h
+    · simp [stepD] at h
   | _ => simp [stepD] at h
 
 /-- all changes logged between BEGIN and its XID / COMMIT arrive together, in order, in one transaction -/
